@@ -100,6 +100,8 @@ type listener struct {
 	start     chan struct{} // nil: reads at once; else waits for it (stalled)
 	key       int           // key of the OnSyncFinished call in the trace
 	cancelled bool
+	keep      bool      // record what is read
+	got       []cid.Cid // if keep
 }
 
 func (l *listener) read() {
@@ -107,11 +109,14 @@ func (l *listener) read() {
 	if l.start != nil {
 		<-l.start
 	}
-	for range l.ch {
+	for ev := range l.ch {
 		t := subdrv.Tick()
 		l.mu.Lock()
 		l.n++
 		l.last = t
+		if l.keep {
+			l.got = append(l.got, ev.Cid)
+		}
 		l.mu.Unlock()
 	}
 	l.mu.Lock()
@@ -555,6 +560,107 @@ func runInject(sc Scn) (res Res) {
 		e.postClose(T, true)
 		if len(res.Failures) == 0 {
 			res.Trace, _ = e.buildTrace(sc.Sem, true)
+		}
+	}
+	res.DurMs = float64(time.Since(t0).Microseconds()) / 1000
+	return
+}
+
+// runBacklogClose: listeners that do not read are Closers-hundred notifications behind (cheap
+// explicit syncs of a chain growing by one); then Close, the cancel func of one of them and a
+// new OnSyncFinished run concurrently.  All must return within the bound, whatever the readers
+// do; afterwards the listeners read everything that was queued, in order, then see the close.
+func runBacklogClose(sc Scn) (res Res) {
+	res.Sc = sc
+	t0 := time.Now()
+	n := sc.Closers // number of notifications queued (the field is reused; one Close caller + one late one)
+	e := newEnv(sc, &res, 1, nil)
+	defer e.cleanup()
+	e.tr.off = true // hundreds of syncs: not replayed
+	p := e.pubs[0]
+	p.Extend(n + 2)
+	toCancel := e.listen(true)
+	tillClose := e.listen(true)
+	reader := e.listen(false)
+	if toCancel == nil || tillClose == nil || reader == nil {
+		return
+	}
+	for _, l := range []*listener{toCancel, tillClose, reader} {
+		l.mu.Lock()
+		l.keep = true
+		l.mu.Unlock()
+	}
+	syncStuck := false
+	queued := n
+	for i := 1; i <= n; i++ {
+		p.SetHead(i)
+		var err error
+		ok, _ := subdrv.Call(watchdog, func() { _, err = e.w.Sub.SyncAdChain(context.Background(), p.Info()) })
+		if !ok {
+			res.fail("backlog:sync-blocked", fmt.Sprintf("sync %d of %d did not return within %v with two registered listeners %d notifications behind", i, n, watchdog, i-1))
+			syncStuck = true
+			queued = i - 1
+			break
+		}
+		if err != nil {
+			res.fail("backlog:sync-error", err.Error())
+			return
+		}
+	}
+	res.Reached = !syncStuck
+	// Close || cancel || a new registration
+	type ret struct {
+		what string
+		ok   bool
+	}
+	out := make(chan ret, 3)
+	var T uint64
+	go func() {
+		ok, _ := subdrv.Call(watchdog, func() {
+			_ = e.w.Sub.Close()
+			e.closedRet.Store(true)
+			T = e.sched.Signal("ext:close-returned", -1)
+		})
+		out <- ret{"Close", ok}
+	}()
+	go func() {
+		toCancel.cancelled = true
+		ok, _ := subdrv.Call(watchdog, func() { toCancel.cancel() })
+		out <- ret{"cancel", ok}
+	}()
+	late := &listener{done: make(chan struct{})}
+	go func() {
+		ok, _ := subdrv.Call(watchdog, func() { late.ch, late.cancel = e.w.Sub.OnSyncFinished() })
+		out <- ret{"OnSyncFinished", ok}
+	}()
+	closeOK := false
+	for i := 0; i < 3; i++ {
+		r := <-out
+		if !r.ok {
+			res.fail("backlog:"+r.what+":blocked", fmt.Sprintf("%s did not return within %v while two registered listeners had %d unread notifications", r.what, watchdog, queued))
+		} else if r.what == "Close" {
+			closeOK = true
+		} else if r.what == "OnSyncFinished" {
+			go late.read()
+			defer late.cancel()
+		}
+	}
+	if closeOK && len(res.Failures) == 0 {
+		e.postClose(T, true) // releases the stalled readers and waits for their channels to close
+		want := n
+		for i, l := range []*listener{toCancel, tillClose, reader} {
+			l.mu.Lock()
+			got := l.got
+			l.mu.Unlock()
+			bad := len(got) != want
+			for j := 0; j < len(got) && !bad; j++ {
+				if p.Index(got[j]) != j+1 {
+					bad = true
+				}
+			}
+			if bad {
+				res.fail(fmt.Sprintf("backlog:listener-%d:lost-or-reordered", i), fmt.Sprintf("listener %d (%s) read %d of the %d notifications queued for it, or not in order", i, []string{"cancelled during Close, read afterwards", "read after Close", "reading all along"}[i], len(got), want))
+			}
 		}
 	}
 	res.DurMs = float64(time.Since(t0).Microseconds()) / 1000
@@ -1046,6 +1152,10 @@ func run(sc Scn) Res {
 		return runCleaner(sc)
 	case "pubsub-close":
 		return runPubsubClose(sc)
+	case "backlog-close":
+		return runBacklogClose(sc)
+	case "topic-close-fails":
+		return runTopicCloseFails(sc)
 	case "mix":
 		return runMix(sc)
 	case "seq":
@@ -1077,6 +1187,9 @@ func genAll(c *vlib.Ctx) (targeted []Scn, bulk []Scn, variants []Scn) {
 	targeted = append(targeted, Scn{Kind: "cleaner", Seed: c.Seed})
 	targeted = append(targeted, Scn{Kind: "pubsub-close", Seed: c.Seed, Closers: 1})
 	targeted = append(targeted, Scn{Kind: "pubsub-close", Seed: c.Seed, Closers: 2})
+	targeted = append(targeted, Scn{Kind: "backlog-close", Seed: c.Seed, Closers: 320})
+	targeted = append(targeted, Scn{Kind: "topic-close-fails", Seed: c.Seed, Closers: 1})
+	targeted = append(targeted, Scn{Kind: "topic-close-fails", Seed: c.Seed, Closers: 2})
 	// Close injected at every yield point
 	for _, k := range []int{1, 2, 4} {
 		for _, pt := range explicitPoints {
@@ -1169,7 +1282,7 @@ func main() {
 	c.Family("trace", []string{"From Model Require Import C15_Shutdown."}, "trace_case_ok", 120)
 	c.Family("seqnorecv", []string{"From Model Require Import C15_Shutdown."}, "seq_case_ok_norecv", 500)
 	c.Res.Exhaustive = true
-	c.Res.Rule = "Close injected (the sync goroutine is held there until doClose has started) at each of the verif yield points of an explicit sync and of an announce-triggered sync, plus a held publisher block request and an in-flight registration, with 1, 2 and 4 concurrent Close callers, with and without the async semaphore; a publisher that never answers; seeded random mixes of 3..8 concurrent calls (close, sync, announce, listen, cancel) with perturbed yield points; Close with the distributor held; every call under a 2 s watchdog; after Close: entry points, silence (hooks, store writes, yield points), listener channels closed, goroutine dump; all sequential histories over the 5 calls up to length 4/5 (exhaustive) as Coq cases; non-trivial = the injection point was reached / the mix or history contains a call after a Close"
+	c.Res.Rule = "Close injected (the sync goroutine is held there until doClose has started) at each of the verif yield points of an explicit sync and of an announce-triggered sync, plus a held publisher block request and an in-flight registration, with 1, 2 and 4 concurrent Close callers, with and without the async semaphore; a publisher that never answers; seeded random mixes of 3..8 concurrent calls (close, sync, announce, listen, cancel) with perturbed yield points; Close with the distributor held; Close ∥ cancel ∥ OnSyncFinished with listeners 320 notifications behind; Close when leaving the gossip topic owned by the receiver fails (the pubsub it started must be stopped); every call under a 2 s watchdog; after Close: entry points, silence (hooks, store writes, yield points), listener channels closed, goroutine dump; all sequential histories over the 5 calls up to length 4/5 (exhaustive) as Coq cases; non-trivial = the injection point was reached / the mix or history contains a call after a Close"
 
 	if c.Replay != "" {
 		var sc Scn
